@@ -199,6 +199,8 @@ def cosim_one(args):
         policy.publish_fate = lambda broker, ch, m: None
     if sc.get('crossing'):
         policy.crossing_close = True
+    if sc.get('channel_max'):
+        policy.channel_max = sc['channel_max']
     ref = {}
 
     def scenario(ctx):
@@ -262,7 +264,16 @@ def cosim_one(args):
                         ch.close(sc['code'], 'txt')
                 except amqpstorm.AMQPError as why:
                     out.setdefault('close_errors', []).append(repr(why)[:60])
+            def opener():
+                # another thread opens channels on the same connection while the close is under way
+                for _ in range(sc['opener']):
+                    try:
+                        out.setdefault('opened', []).append(conn.channel(rpc_timeout=2).channel_id)
+                    except amqpstorm.AMQPError as why:
+                        out.setdefault('open_errors', []).append(repr(why)[:60])
             ts = [ctx.spawn(closer, 'closer%d' % i) for i in range(sc['closers'])]
+            if sc.get('opener'):
+                ts.append(ctx.spawn(opener, 'opener'))
             for t in ts:
                 ctx.join(t)
             if sc['again']:
@@ -370,6 +381,8 @@ def check(rep):
             if sc['closers'] == 1 and rng.random() < 0.35:
                 sc['crossing'] = True
                 sc['again'] = False
+            elif sc['closers'] == 1 and rng.random() < 0.5:
+                sc['opener'] = rng.randint(1, 3)
         else:
             sc = {'kind': k, 'closers': [rng.choice([1, 1, 2]) for _ in range(rng.randint(1, 3))]}
             if rng.random() < 0.25:
@@ -377,6 +390,10 @@ def check(rep):
             if rng.random() < 0.3:
                 sc['pending'] = rng.choice(['close', 'op'])
         jobs.append((sc, rng.randrange(1 << 30)))
+    for _ in range(60 if not thorough else 1500):
+        # one thread closes a channel (with consumers to cancel first, so that the close takes a while) while another opens channels
+        jobs.append(({'kind': 'app-close', 'consumers': rng.randint(0, 3), 'closers': 1, 'again': False, 'code': rng.choice([200, 320]),
+                      'opener': rng.randint(1, 3), 'channel_max': rng.choice([3, 3, 4, 0])}, rng.randrange(1 << 30)))
     conn_lines = []
     for (sc, seed), r in zip(jobs, par.pmap(cosim_one, jobs)):
         k = sc['kind']
@@ -417,6 +434,12 @@ def check(rep):
                 rep.violation('C11/consumers-not-cancelled', 'cancelled %r of %d consumers' % (r['cancels'], sc['consumers']), replay)
             if r['state'] != (0, 0, 0):
                 rep.violation('C11/not-closed-after-close', 'after close(): %r' % (r['state'],), replay)
+            if sc['closers'] == 1 and not sc.get('crossing') and r.get('close_errors'):
+                rep.violation('C11/close-raised-although-closeok-arrived', 'one thread closing the channel, the broker answered its '
+                              'Channel.Close with CloseOk at once (another thread opened %d channel(s) meanwhile): close() raised %s'
+                              % (sc.get('opener', 0), r['close_errors'][0]), replay)
+            if [e for e in r.get('open_errors', []) if 'maximum' not in e]:      # (every number in use: a legitimate refusal, C10)
+                rep.violation('C11/open-next-to-close-failed', 'opening a channel while another is being closed: %s' % r['open_errors'][0], replay)
             if sc.get('crossing') and len(r['closes']) == 1 and r.get('closeoks_for_broker_close') != 1:
                 rep.violation('C11/crossing-close-not-answered', 'the broker closed the channel (404) while the application\'s close() was '
                               'waiting for its CloseOk, the connection was up: %r Channel.CloseOk sent instead of exactly 1'
